@@ -36,6 +36,9 @@ def run(tier, seed, t0):
                      "what": "Parse(%s).JSON() = %s : %s" % (e["text"], e["output"], m[2])})
     for l in open(os.path.join(out, "c06.panics.ndjson")):
         e = json.loads(l)
+        if e["op"] == "zero-sign":
+            v.violation({"property": PID, "event": e, "what": "Parse(%s).JSON(): %s" % (e["text"], e["msg"])})
+            continue
         v.violation({"property": PID, "event": e, "what": "Parse(%s) -> JSON() -> Parse panics: %s" % (e["text"], e["msg"])})
     lsum, lstates, lrows = c07.run_lex(PID, v, tier, seed, out)
     rc = v.finish()
@@ -50,7 +53,7 @@ def run(tier, seed, t0):
                 "OutInfo(out) = ExpInfo(in) (type, x/y bit-for-bit via tokens, z/m of the declared dimensionality, child order, "
                 "foreign members in order, properties on Features). distinct_nontrivial = distinct (document, table, options) round trips",
         "samples": [{k: events[len(events) // 2][k] for k in ("text", "output", "opts", "fix", "valid", "samekind", "sameans")}],
-        "round_trips_judged_by_tlc": len(events), "mismatches": len(mism), "accessor_deviations_outside_the_statement": api_drift,
+        "zero_sign_round_trips": summ.get("zero_sign_cases"), "round_trips_judged_by_tlc": len(events), "mismatches": len(mism), "accessor_deviations_outside_the_statement": api_drift,
         "byte_level": c07.lex_cov(lsum, lstates, lrows),
     }
     vlib.write_evidence(PID, tier, seed, t0, cov, [vlib.TOOLS,
